@@ -162,17 +162,22 @@ def strategies(tier):
     nmax = 160 if tier == "quick" else 400
 
     def n_strategy(lo=1):
-        return st.one_of(
-            st.integers(lo, 12), st.integers(lo, 12), st.integers(lo, 12),  # 45 %
-            st.integers(13, 64), st.integers(13, 64), st.integers(13, 64),  # 40 %
-            st.integers(65, nmax))                                          # 15 %
+        # 45 % boundary arithmetic, 40 % mid, 15 % large (one_of() collapses
+        # repeated branches, hence the explicit mode draw)
+        return st.integers(0, 19).flatmap(
+            lambda m: st.integers(lo, 12) if m < 9 else st.integers(13, 64) if m < 17 else st.integers(65, nmax))
 
     def units(n, lo):
-        # 1,2,3 heavy; some uniform in lo..n+2
-        return st.one_of(st.integers(max(lo, 1), 3), st.integers(max(lo, 1), 3),
-                         st.integers(max(lo, 1), 6),
-                         st.integers(lo, n + 2),
-                         st.sampled_from([max(lo, n - 2), max(lo, n - 1), max(lo, n)]))
+        # 1,2,3 heavy; 15 % uniform in lo..n+2; 15 % exactly n-2, n-1, n
+        def pick(m):
+            if m < 8:
+                return st.integers(max(lo, 1), 3)
+            if m < 14:
+                return st.integers(max(lo, 1), 6)
+            if m < 17:
+                return st.integers(lo, n + 2)
+            return st.sampled_from([max(lo, n - 2), max(lo, n - 1), max(lo, n)])
+        return st.integers(0, 19).flatmap(pick)
 
     eighth_pos = st.integers(1, 64)
     eighth_nn = st.integers(0, 192)
@@ -305,14 +310,15 @@ SWEEP_WEIGHTS = {"None": 1, "SingleMemory": 2, "SingleDisk": 3, "Multistage": 8,
                  "TwoLevel": 8, "Revolve": 4, "DiskRevolve": 6, "PeriodicDiskRevolve": 6, "HRevolve": 10}
 
 
-def sweep_strategy(tier, classes=None):
+def sweep_strategy(tier, classes=None, weights=None):
     from hypothesis import strategies as st
     S = strategies(tier)
-    pool = []
-    for c, w in SWEEP_WEIGHTS.items():
+    names = []
+    for c, w in (weights or SWEEP_WEIGHTS).items():
         if classes is None or c in classes:
-            pool += [S[c]] * w
-    return st.one_of(*pool)
+            names += [c] * w
+    # one_of() collapses repeated branches, so weight by an explicit index draw
+    return st.integers(0, len(names) - 1).flatmap(lambda i: S[names[i]])
 
 
 def generate(strategy, count, seed):
